@@ -191,12 +191,18 @@ func (c *lexCtx) l1Hex(rule string) {
 			if id.pkg != "strconv" || (id.name != "ParseInt" && id.name != "ParseUint") {
 				return
 			}
-			base, ok1 := constIntVal(call.Call.Args[1])
+			bases, ok1 := possibleConsts(call.Call.Args[1], 0)
 			bits, ok2 := constIntVal(call.Call.Args[2])
 			key := c.key(fn, rule+":"+id.name)
 			if !ok1 {
 				r.Unk(rule, key, call.Pos(), "non-constant base")
 				return
+			}
+			base := bases[0]
+			for _, b := range bases {
+				if b == 16 {
+					base = 16 // one of the bases the call can be made with is hexadecimal: the hex rule applies
+				}
 			}
 			if base != 16 {
 				r.OK(rule, key, call.Pos(), "%s base %d", id.name, base)
@@ -1317,4 +1323,31 @@ func (c *lexCtx) l8EmptyByteString() {
 			r.OK("C04.L8", key, fn.Pos(), "%d success return(s), each a non-nil slice (decode of a string, clone of a non-nil view, make)", nRet)
 		}
 	}
+}
+
+
+// possibleConsts: v is an integer constant, or a phi (of phis) of integer constants: the values it can take.
+func possibleConsts(v ssa.Value, depth int) ([]int64, bool) {
+	if k, ok := constIntVal(v); ok {
+		return []int64{k}, true
+	}
+	if depth > 4 {
+		return nil, false
+	}
+	ph, ok := v.(*ssa.Phi)
+	if !ok {
+		return nil, false
+	}
+	var out []int64
+	for _, e := range ph.Edges {
+		if e == ssa.Value(ph) {
+			continue
+		}
+		ks, ok := possibleConsts(e, depth+1)
+		if !ok {
+			return nil, false
+		}
+		out = append(out, ks...)
+	}
+	return out, len(out) > 0
 }
